@@ -154,7 +154,17 @@ pub fn c03_idempotent(input: &str, cfg: &Cfg) -> Vec<String> {
         let p1 = fmt(input, &off);
         let p2 = fmt(&p1, &off);
         if cfg.fmt_mls && p1 == p2 && input.contains("\'\'\'") {
-            vec!["c03: formatting the output again changes it (only with format_multiline_strings=true)".to_string()]
+            // finer: is a multi-line string part of a child line (a line with a parent: the body of an anonymous
+            // routine and the like)? The stale child-line cache of finding F10 needs that.
+            let snap = crate::stages::run_stages(input, cfg, &[]);
+            let in_child = snap.lines.iter().any(|l| {
+                l.parent.is_some() && l.tokens.iter().any(|&t| snap.kinds.get(t).map_or(false, |k| k.contains("TextLiteral(MultiLine)")))
+            });
+            if in_child {
+                vec!["c03: formatting the output again changes it (only with format_multiline_strings=true; multi-line string inside a child line)".to_string()]
+            } else {
+                vec!["c03: formatting the output again changes it (only with format_multiline_strings=true)".to_string()]
+            }
         } else {
             vec!["c03: formatting the output again changes it".to_string()]
         }
